@@ -148,6 +148,7 @@ Fixpoint jlsl_loop (fuel : nat) (st : jls_st) (bs : list Z) : M jls_hdr :=
         _ <- jls_scan_allocs (fst x) (snd x) ;;
         ret (js_w (fst x), js_h (fst x), js_c (fst x), js_bits (fst x), 0)
       else if m =? 217 then err
+      else if is_sof m then err   (* F47: frame header of a process this decoder does not implement *)
       else if has_length m then x <- read_segment r ;; jlsl_loop k st (snd x)
       else jlsl_loop k st r
     | _ => err (* read error (EOF: "incomplete JPEG-LS data") *)
@@ -222,6 +223,7 @@ Fixpoint jlsn_loop (fuel : nat) (st : jls_st) (bs : list Z) : M jls_hdr :=
         _ <- jls_scan_allocs (fst x) (snd x) ;;
         ret (js_w (fst x), js_h (fst x), js_c (fst x), js_bits (fst x), js_near (fst x))
       else if m =? 217 then err
+      else if is_sof m then err   (* F47: frame header of a process this decoder does not implement *)
       else if has_length m then x <- read_segment r ;; jlsn_loop k st (snd x)
       else jlsn_loop k st r
     | _ => err
